@@ -110,10 +110,10 @@ CnfText(c, i) == IF i > Len(c) THEN "" ELSE LineText(c[i]) \o (IF i < Len(c) THE
 \* status of the filter conjunction evaluated on the (only) element of `a`, and its record
 FilterEval ==
   LET X == [F |-> Program(5, cnf), dev |-> {}]
-      root == WithPaths(Doc, <<>>)
+      root == DocPaths(Doc)
       env == <<[k |-> "root", root |-> root, lets |-> <<>>], VScope(root.v[2].v[1])>>
       r == EvalCnf(X, AsCnf(cnf), env)
-  IN [k |-> "Filter", st |-> r.st, n |-> "", vk |-> "", ch |-> r.ns]
+  IN Node("Filter", r.st, "", r.ns)
 
 CaseOK ==
   Len(cnf) > 0 =>
